@@ -17,6 +17,16 @@ Definition run_g (g : fsgraph) (mx : N) (dfs : bool) (rp canon : str) (ino : N) 
 """
 
 
+# without proofs/: plenty of fuel instead of the theorem's bound, and no wf_graph test
+COQ_HEADER_FB = """From Coq Require Import List NArith Bool.
+From FS Require Import lib.Str model.Walk model.WalkLinks.
+Import ListNotations. Open Scope N_scope.
+Definition res_of (x : option lst) := match x with Some s => (1, l_out s, l_errs s) | None => (0, [], []) end.
+Definition run_g (g : fsgraph) (mx : N) (dfs : bool) (rp canon : str) (ino : N) :=
+  (res_of (lwalk g 0 mx dfs 0 (S (S (fold_right (fun x a => (List.length (snd (snd x)) + S a)%nat) O g))) rp canon ino), 1).
+"""
+
+
 def gen_link_tree(ctx, idx):
     """A small tree under base/r plus an outside directory base/out, decorated with links of every kind."""
     rng = ctx.rng
@@ -160,7 +170,7 @@ def run(ctx):
         gt = graph_term(j["g"])
         rino = os.stat(j["root"]).st_ino
         exprs.append("run_g %s %d %s %s %s %d" % (gt, j["mx"], gbool(j["dfs"]), gstr(j["sp"]), gstr(os.path.realpath(j["root"])), rino))
-    mres = coq_eval(COQ_HEADER, exprs, ctx.scratch, tag="c18", shard=6)
+    mres = coq_eval(COQ_HEADER, exprs, ctx.scratch, tag="c18", shard=6, fallback_header=COQ_HEADER_FB)
     st = dict(agreed=0, distinct=set(), samples=[], hist=collections.Counter())
     for j, (r, r0), mt in zip(jobs, res, mres):
         rows = [v.decode("utf-8", "surrogateescape") for v in r["values"]]
